@@ -306,6 +306,8 @@ def run_unit(unit, acc):
             if fmt == "ci" and not ci_valid(spec):
                 acc.outcome("converse:skipped-duplicate-uid")
                 continue
+            if fmt == "im" and e is not None and e[0] == "img" and isinstance(e[3], float):
+                continue                    # the universe also holds plausible OUT-of-domain values (float mtime/size)
             o = eval_valid(fmt, name, edits)
             acc.ev()
             if o["result"] != "written":
